@@ -133,7 +133,7 @@ def generic(prop):
     def runner(ctx):
         if ctx.replay:
             return replay_case(ctx, prop)
-        n = ctx.pick(120, 1500)
+        n = ctx.pick(120, 4000)
         cases = make_cases(prop, ctx.seed, n)
         traces, meta = execute(cases)
         out = check_traces(ctx, prop, cases, traces, meta)
@@ -143,13 +143,13 @@ def generic(prop):
             # the decimal-period clause: the same semantics with the quantum mapped to 0.1 s and 0.05 s
             from fractions import Fraction
             for q in (Fraction(1, 10), Fraction(1, 20)):
-                dcases = [(p, e, t + 6) for (p, e, t) in make_cases(prop, ctx.seed + q.denominator, ctx.pick(60, 600))]
+                dcases = [(p, e, t + 6) for (p, e, t) in make_cases(prop, ctx.seed + q.denominator, ctx.pick(60, 1200))]
                 dtraces, dmeta = execute(dcases, quantum=q)
                 dout = check_traces(ctx, prop, dcases, dtraces, dmeta, " (decimal quantum %s s)" % float(q))
                 nontrivial += len(dout.accepted)
                 n += len(dcases)
         # (C07's programs carry every feature incl. four typed input shares: one tick less keeps the run in budget)
-        model_check(ctx, prop, cases, ctx.pick(2, 3) if prop == "C07" else ctx.pick(3, 4), ctx.pick(6, 20))
+        model_check(ctx, prop, cases, ctx.pick(2, 3) if prop == "C07" else ctx.pick(3, 4), ctx.pick(6, 48))
         if prop == "C03":
             model_check(ctx, prop, cases, 2, ctx.pick(3, 8), liveness=True)
         ctx.rule = ("seeded generated FloScript programs (%s) built and run by the real Builder/Skedder; a case counts when its whole "
